@@ -178,6 +178,82 @@ def effect_outcome(run, ns):
     return [st, _canon_ns(ns)]
 
 
+SECOND_PYTHON = 'python3-vt'       # CPython 3.11 of the sandbox (no PEP 709 comprehension inlining)
+NOTES = {}                          # counters of oracle decisions, merged into res.dist by shard()
+
+
+def _note(key):
+    NOTES[key] = NOTES.get(key, 0) + 1
+
+
+def second_opinion(case):
+    """the canonical effect of exec()ing the ORIGINAL source on the context data under the other CPython of
+    the sandbox, or None when that interpreter is not available / fails"""
+    import os, shutil, subprocess
+    exe = shutil.which(SECOND_PYTHON)
+    if exe is None:
+        return None
+    script = os.path.join(os.path.dirname(os.path.dirname(os.path.abspath(__file__))), 'effect_second_opinion.py')
+    try:
+        p = subprocess.run([exe, '-B', script], input=json.dumps({'src': case['src'], 'data': case['data']}).encode('utf-8'),
+                           stdout=subprocess.PIPE, stderr=subprocess.PIPE, timeout=60)
+        if p.returncode != 0:
+            return None
+        ans = json.loads(p.stdout.decode('utf-8'))
+        if tuple(ans['version']) >= (3, 12):
+            return None
+        return ans['effect']
+    except Exception:  # noqa: no second opinion
+        return None
+
+
+INLINED_COMPS = (ast.ListComp, ast.SetComp, ast.DictComp)
+
+
+def inlining_sensitive(src):
+    """syntactic guard (used when no second interpreter is available): some function reads a name it does
+    not bind, and that name is also the iteration variable of a list / set / dict comprehension standing
+    directly in that function -- the shape on which CPython 3.12's comprehension inlining (PEP 709) turns
+    the read of the global into an UnboundLocalError"""
+    try:
+        tree = ast.parse(src)
+    except SyntaxError:
+        return False
+
+    def own_nodes(fn):
+        """nodes of the function's own scope, with the comprehensions standing directly in it"""
+        todo = list(fn.body) if isinstance(fn.body, list) else [fn.body]
+        comps, nodes = [], []
+        while todo:
+            n = todo.pop()
+            if isinstance(n, (ast.FunctionDef, ast.AsyncFunctionDef, ast.Lambda, ast.ClassDef)):
+                continue
+            if isinstance(n, INLINED_COMPS):
+                comps.append(n)
+                continue
+            nodes.append(n)
+            todo.extend(ast.iter_child_nodes(n))
+        return nodes, comps
+
+    for fn in ast.walk(tree):
+        if not isinstance(fn, (ast.FunctionDef, ast.AsyncFunctionDef, ast.Lambda)):
+            continue
+        nodes, comps = own_nodes(fn)
+        a = fn.args
+        bound = set(x.arg for x in a.posonlyargs + a.args + a.kwonlyargs + [y for y in (a.vararg, a.kwarg) if y])
+        bound |= set(n.id for n in nodes if isinstance(n, ast.Name) and not isinstance(n.ctx, ast.Load))
+        for c in comps:
+            itervars = set(n.id for g in c.generators for n in ast.walk(g.target) if isinstance(n, ast.Name))
+            outside = set(n.id for n in nodes if isinstance(n, ast.Name) and isinstance(n.ctx, ast.Load))
+            for c2 in comps:
+                if c2 is not c:
+                    outside |= set(n.id for n in ast.walk(c2) if isinstance(n, ast.Name) and isinstance(n.ctx, ast.Load))
+            outside |= set(n.id for n in ast.walk(c.generators[0].iter) if isinstance(n, ast.Name))
+            if (itervars & outside) - bound:
+                return True
+    return False
+
+
 def oracle_effect(case):
     """executing the code block has exactly the effect of executing the original code: same final
     namespace (or same exception and namespace at that point) as exec() of the source with the context
@@ -210,9 +286,25 @@ def oracle_effect(case):
     except (RecursionError, _Timeout):
         return None
     if got != want:
+        # "what Python computes" must not depend on the CPython version: CPython 3.12 inlines comprehensions
+        # (PEP 709) and then raises UnboundLocalError where the original program reads a global that is also
+        # the iteration variable of another comprehension of the same function (possibly swallowed by the
+        # program's own try/except, so the status alone does not show it).  Ask the other interpreter.
+        other = second_opinion(case)
+        if other is not None:
+            if _json_eq(other, got):
+                _note('effect:cpython-version-dependent')
+                return None
+        elif inlining_sensitive(src):
+            _note('effect:cpython-version-dependent:syntactic-guard')
+            return None
         return {'case': case, 'what': 'Suite(src).execute(data) has the effect of exec(src) on the context data',
                 'expected': want, 'observed': got}
     return None
+
+
+def _json_eq(a, b):
+    return json.loads(json.dumps(a)) == json.loads(json.dumps(b))
 
 
 # -- name resolution of code blocks against CPython's own compiler: every name the compiler resolves as a
@@ -921,6 +1013,9 @@ def shard(arg):
         if st == 'bad':
             res.failures.append(oracle_scope(sc))
     compare_model(cases + corpus, res)
+    for k_, v_ in sorted(NOTES.items()):
+        res.count(k_, v_)
+    NOTES.clear()
     # statement mode of the transformer: model, Python's scoping rule, symtable
     sgen = G.ScopeGen(rng)
     scope_cases = []
